@@ -343,8 +343,9 @@ class Lemma:
     """P(c, params) for all categories c, by structural induction.  stmt(w, c, *params) -> z3 Bool.
     ih(w, l, r, *params) -> (instances for l, instances for r): parameter tuples at which the hypothesis is used
     (default: the same parameters).  uses: [(lemma, fn(w, c, *params) -> [argument tuples])] instances of earlier lemmas."""
-    def __init__(self, name, stmt, params=(), hyps=None, ih=None, uses=None):
+    def __init__(self, name, stmt, params=(), hyps=None, ih=None, uses=None, def_hyps=None):
         self.name, self.stmt, self.params, self.hyps, self.ih, self.uses = name, stmt, params, hyps, ih, uses or []
+        self.def_hyps = def_hyps      # unfoldings of opaque predicates at the atom of the base case
 
     def obligations(self, w, table=None):
         ps = [z3.Const(n, s) for n, s in self.params]
@@ -362,7 +363,8 @@ class Lemma:
             return out
         inputs = {p.decl().name(): p for p in ps}
         atom = w.atom(b, f)
-        yield 'lemma-base', self.stmt(w, atom, *ps), side + used(atom), dict(b=b, f=f, **inputs)
+        dh = self.def_hyps(w, atom, *ps) if self.def_hyps else []
+        yield 'lemma-base', self.stmt(w, atom, *ps), side + used(atom) + dh, dict(b=b, f=f, **inputs)
         fun = w.functor(l, s, r)
         if self.ih:
             il, ir = self.ih(w, l, r, *ps)
@@ -459,7 +461,12 @@ def finish(prop, tier, seed, t0, records, errors, coverage_extra, assumptions, l
         print(ln)
     if len(shown) > 8:
         print(f'... {len(shown) - 8} more failing obligations/cases of property {prop} are listed in the evidence file')
-    obligations = [r for r in records if r.get('backend') != 'bounded']
+    known_names = set()
+    for r in failed:
+        if match_known(prop, r, known) is not None:
+            known_names.add(r['name'])
+    # obligations that fail exactly as a listed known finding are reported apart, not counted as proved or as open
+    obligations = [r for r in records if r.get('backend') != 'bounded' and r['name'] not in known_names]
     n_ob = len(obligations)
     n_dis = len([r for r in obligations if r['verdict'] == 'discharged'])
     by_backend = {}
@@ -473,7 +480,7 @@ def finish(prop, tier, seed, t0, records, errors, coverage_extra, assumptions, l
                slowest_ms=max([r['ms'] for r in obligations] or [0]),
                undecided=[r['name'] for r in unknown],
                failed=[r['name'] for r in failed],
-               known_findings_reproduced=known_hits,
+               known_findings_reproduced=known_hits, known_finding_obligations=sorted(known_names),
                samples=[dict(obligation=r['name'], verdict=r['verdict'], backend=r['backend'], ms=r['ms']) for r in obligations[:6]])
     if bounded:
         cov['bounded'] = bounded
